@@ -8,6 +8,9 @@ use crate::fsm::{
 };
 use std::any::Any;
 use std::collections::hash_map::Entry;
+#[cfg(rfsm_verif)]
+use crate::verif_seams::collections::HashMap;
+#[cfg(not(rfsm_verif))]
 use std::collections::HashMap;
 use std::fmt;
 use std::fmt::{Debug, Display, Formatter};
